@@ -125,7 +125,7 @@ static inline void check_instance(std::vector<std::string>& bad, instance_t& p, 
     if (p.mapping.size() != mapped) bad.push_back(n + ": mapping has entries for symbols that are not its parameters");
     if (p.mapping.size() != p.parameters.get_size() - p.unbound) bad.push_back(n + ": mapping size differs from the number of bound parameters");
     type_t ty = p.uid.get_type();
-    if (!ty.unknown() && (ty.get_kind() == INSTANCE || ty.get_kind() == PROCESS || ty.get_kind() == LSC_INSTANCE) && ty.size() != p.unbound) bad.push_back(n + ": type arity differs from the number of unbound parameters");
+    if (!ty.unknown() && (ty.get_kind() == INSTANCE || ty.get_kind() == PROCESS_SET || ty.get_kind() == LSC_INSTANCE) && ty.size() != p.unbound) bad.push_back(n + ": type arity differs from the number of unbound parameters");
 }
 static inline std::vector<std::string> check_document(Document& doc, bool returned_normally)
 {
